@@ -14,6 +14,7 @@ from ..decode import chart_from_json
 from ..encode import ChartEnc
 from ..framework import Case, Prop
 from .c16 import snapshot
+from ..encode import kind_of
 
 HOSTILE = [': x', '# c', '- a', '? q', '?x', '| b', '> f', "it's", '"dq"', 'back\\slash', '{a: 1}', '[1, 2]', 'yes', 'no',
            'null', '~', '1e3', '0x1F', '007', '1.5', 'true', 'Null', ' lead', 'trail ', '  both  ', 'two\nlines',
@@ -56,7 +57,7 @@ def view(sc, strip):
     sts = {}
     for n in sc.states:
         st = sc.state_for(n)
-        sts[n] = {'kind': type(st).__name__, 'parent': sc.parent_for(n), 'children': sorted(sc.children_for(n)),
+        sts[n] = {'kind': kind_of(st), 'parent': sc.parent_for(n), 'children': sorted(sc.children_for(n)),
                   'initial': getattr(st, 'initial', None), 'memory': getattr(st, 'memory', None),
                   'on_entry': norm_s(getattr(st, 'on_entry', None), strip), 'on_exit': norm_s(getattr(st, 'on_exit', None), strip),
                   'pre': [norm_s(c, strip) for c in st.preconditions], 'post': [norm_s(c, strip) for c in st.postconditions],
@@ -66,6 +67,21 @@ def view(sc, strip):
                             [norm_s(c, strip) for c in t.invariants]]) for t in sc.transitions)
     return {'name': sc.name, 'description': norm_s(sc.description, False), 'preamble': norm_s(sc.preamble, False),
             'root': sc.root, 'states': sts, 'transitions': ts}
+
+
+def subclassed(sc):
+    """every state becomes an instance of an application-defined subclass of its class (what a client who attaches
+    data or behaviour of its own to states does); nothing else changes"""
+    import sismic.model as M
+    table = subclassed.__dict__.setdefault('table', {})
+    for n in sc.states:
+        st = sc.state_for(n)
+        k = type(st)
+        if k.__module__.startswith('sismic.'):
+            if k not in table:
+                table[k] = type('App' + k.__name__, (k,), {})
+            st.__class__ = table[k]
+    return sc
 
 
 class C11(Prop):
@@ -94,8 +110,34 @@ class C11(Prop):
             rnd._nel = rnd.random() < 0.03      # the known third-party loss (K5) is visited, but rarely
             sc = self.hostile_chart(rnd)
             ops = []
+        history = None
+        if executable and rnd.random() < 0.15:
+            # a statechart with a past: used (every structural question asked, run), restructured through the
+            # editing API — it is exported as it stands
+            base = ChartEnc(sc).json
+            gen.warm(sc)
+            edits = gen.plan_edits(rnd, sc, True)
+            if edits is None:
+                sc = chart_from_json(base)
+                gen.warm(sc)
+                edits = []
+            if rnd.random() < 0.5:
+                # … its root state included
+                e = ['rename', sc.root, rnd.choice(['top', 'a' + sc.root, sc.root + '_'])]
+                if e[2] not in sc.states:
+                    gen.apply_edits(sc, [e])
+                    edits.append(e)
+            if edits:
+                history = {'base': base, 'edits': edits}
+            else:
+                sc = chart_from_json(base)
         enc = ChartEnc(sc)
         payload = {'kind': 'multi', 'chart0': enc.json, 'executable': executable, 'ops1': ops}
+        if history:
+            payload['history'] = history
+        if rnd.random() < 0.08:
+            payload['subclassed'] = True
+            subclassed(sc)
         if rnd.random() < 0.3:
             # a document of another YAML version was imported earlier in the same process
             payload['preload11'] = True
@@ -167,7 +209,14 @@ class C11(Prop):
         return sc
 
     def rebuild(self, payload):
-        sc = chart_from_json(payload['chart0'])
+        if payload.get('history'):
+            sc = chart_from_json(payload['history']['base'])
+            gen.warm(sc)
+            gen.apply_edits(sc, payload['history']['edits'])
+        else:
+            sc = chart_from_json(payload['chart0'])
+        if payload.get('subclassed'):
+            subclassed(sc)
         # chart_from_json keeps name/description/preamble
         payload['chart0'] = ChartEnc(sc).json
         c = Case(payload, {'chart0': sc})
@@ -185,7 +234,11 @@ class C11(Prop):
     def run_impl(self, case):
         sc = copy.deepcopy(case.aux['chart0'])
         out = {'multi': []}
-        d = export_to_dict(sc)
+        try:
+            d = export_to_dict(sc)
+        except Exception as e:      # noqa
+            # a valid statechart cannot be exported: reported by the oracle (the round trip does not succeed)
+            d = {'export raised': '%s: %s' % (type(e).__name__, str(e)[:160])}
         out['multi'].append({'data': json.loads(json.dumps(d))})
         if case.payload.get('preload11'):
             try:
